@@ -283,15 +283,24 @@ Proof.
   - apply String.eqb_eq in E. subst k. rewrite (Hf d x). destruct (f (n, x)); auto. discriminate.
   - destruct (f (k, x)); auto. discriminate.
 Qed.
+Lemma min_key_nil l : min_key l = None <-> l = [].
+Proof.
+  destruct l as [|p r]; simpl; [split; auto|]. split; [|discriminate].
+  destruct (min_key r) as [q|]; [destruct (String.ltb (fst q) (fst p))|]; discriminate.
+Qed.
+Lemma olist_min_nil l : olist (option_map snd (min_key l)) = [] <-> l = [].
+Proof.
+  rewrite <- min_key_nil. destruct (min_key l); simpl; split; intros H; try discriminate; auto.
+Qed.
 Lemma ci_get_aset_mono m n d n' : ci_get m n' <> [] -> ci_get (aset m n d) n' <> [].
 Proof.
   unfold ci_get. intros H.
   destruct (aget (aset m n d) n') eqn:E; [discriminate|].
   destruct (aget m n') eqn:E0.
   - exfalso. apply (aget_aset_mono m n d n'); congruence.
-  - intro F. apply map_eq_nil in F. revert F. apply filter_aset_mono.
+  - intro F. apply olist_min_nil in F. revert F. apply filter_aset_mono.
     + intros; reflexivity.
-    + intro F. apply H. unfold name, def in *. rewrite F. reflexivity.
+    + intro F. apply H. apply olist_min_nil. exact F.
 Qed.
 
 Definition reg_le (r1 r2 : reg) : Prop :=
